@@ -17,7 +17,9 @@ EXPLANATION = (
     "everything reachable from it) is classified: FRESH objects and objects under construction are not effects; a "
     "write is accepted only if it is MEMO/idempotent (same value whoever wins), under a `with <lock>` block, or goes "
     "to thread-local / ContextVar storage. Save-override-restore of a shared attribute is NOT accepted here, even "
-    "with a finally, because another thread observes the override. (R2) the polars container deep-copies each "
+    "with a finally, because another thread observes the override; each obligation names the entry classes (pandas / "
+    "polars DataFrameSchema, Column, ...) that reach the write, so a write that becomes reachable from a new entry "
+    "family is a new violation even when the site itself is a known finding. (R2) the polars container deep-copies each "
     "component before overriding dtype/coerce. NOT decided: outcome equality under benign races; races inside "
     "pandas/polars/numpy; user callbacks."
 )
